@@ -291,7 +291,16 @@ impl BlockWrite for RollingWriter {
                         ));
                     }
                     let next_file_number = self.directory.files.inc(&self.file_number);
-                    let file = create_file(&self.directory.dir, &next_file_number)?;
+                    let file = match create_file(&self.directory.dir, &next_file_number) {
+                        Ok(file) => file,
+                        Err(io_err) => {
+                            // The name may be taken by something that is not ours (a directory,
+                            // a symlink...). Stop tracking it, or the next write would open it
+                            // as if it were a wal file.
+                            self.directory.files.remove(&next_file_number);
+                            return Err(io_err);
+                        }
+                    };
                     (next_file_number, file)
                 };
 
